@@ -123,15 +123,24 @@ fn replay(path: &str) -> i32 {
             return 2;
         }
     };
-    if verdicts.is_empty() {
-        println!("replay {}: property {} holds on this case", path, prop);
+    // listed findings are findings, not alarms, in a replay as in a check
+    let known = engine::load_known();
+    let mut new = 0;
+    for (sig, detail) in &verdicts {
+        match known.matches(&prop, sig) {
+            Some(what) => println!("KNOWN-FINDING: property={} {} [{}]", prop, what, sig),
+            None => {
+                new += 1;
+                println!("VIOLATION property={} replay={}", prop, path);
+                println!("  signature: {}", sig);
+                println!("  detail: {}", detail);
+            }
+        }
+    }
+    if new == 0 {
+        println!("replay {}: property {} holds on this case{}", path, prop, if verdicts.is_empty() { "" } else { " (listed findings apart)" });
         0
     } else {
-        for (sig, detail) in &verdicts {
-            println!("VIOLATION property={} replay={}", prop, path);
-            println!("  signature: {}", sig);
-            println!("  detail: {}", detail);
-        }
         1
     }
 }
